@@ -38,7 +38,7 @@ type c19Case struct {
 func genC19(t *rapid.T) c19Case {
 	c := c19Case{Seed: rapid.Uint64().Draw(t, "seed"), Identity: rapid.IntRange(0, 5).Draw(t, "identity") > 0}
 	one := rapid.Custom(func(t *rapid.T) c19Step {
-		s := c19Step{Kind: rapid.SampledFrom([]string{"holder", "holder", "stop", "stop", "ok", "ok", "fail", "fail", "lock"}).Draw(t, "kind")}
+		s := c19Step{Kind: rapid.SampledFrom([]string{"holder", "holder", "stop", "stop", "ok", "ok", "fail", "fail", "lock", "idcfg"}).Draw(t, "kind")}
 		switch s.Kind {
 		case "stop":
 			s.Signal = rapid.SampledFrom([]string{"TERM", "INT", "KILL", "KILL"}).Draw(t, "signal")
@@ -47,6 +47,9 @@ func genC19(t *rapid.T) c19Case {
 			s.Early = rapid.IntRange(0, 4).Draw(t, "early") == 0
 		case "ok", "fail":
 			s.Cmd = rapid.IntRange(0, 23).Draw(t, "cmd") // reduced modulo the number of commands of its kind
+		case "idcfg":
+			// the selected identity as the configuration names it: listed twice, in upper case, unknown, or as it should be
+			s.Lock = rapid.SampledFrom([]string{"twice", "upper", "unknown", "restore", "restore"}).Draw(t, "idcfg")
 		case "lock":
 			s.Lock = rapid.SampledFrom([]string{"dead-pid", "live-foreign-pid", "own-dead-child", "empty", "garbage", "too-long", "dead-pid-while-creating-the-index", "dead-pid-7-digits"}).Draw(t, "lock")
 		}
@@ -218,7 +221,9 @@ func runC19(tb report.TB, rep *report.Reporter, c c19Case) {
 		{"__complete", "bug", "author:"}, {"__complete", "bug", "label:"}}
 	refsOf := func() string { return RunGit(dir, "for-each-ref").Out }
 
-	refusals, recoveries, kills, holderDied := 0, 0, 0, 0
+	identityUsable := c.Identity
+	selected := strings.TrimSpace(RunGit(dir, "config", "--get", "git-bug.identity").Out)
+	refusals, recoveries, kills, holderDied, oddIdentity := 0, 0, 0, 0, 0
 	var kinds []string
 	staleLive := false // a stale lock naming a live foreign process is in place
 	for i, s := range c.Steps {
@@ -231,8 +236,32 @@ func runC19(tb report.TB, rep *report.Reporter, c c19Case) {
 		holderAlive := holder != nil && holder.alive()
 		kinds = append(kinds, s.Kind+s.Signal+s.Lock)
 		switch s.Kind {
+		case "idcfg":
+			if !c.Identity || selected == "" {
+				continue
+			}
+			RunGit(dir, "config", "--unset-all", "git-bug.identity")
+			identityUsable = false
+			switch s.Lock {
+			case "twice":
+				RunGit(dir, "config", "--add", "git-bug.identity", selected)
+				RunGit(dir, "config", "--add", "git-bug.identity", selected)
+			case "upper":
+				RunGit(dir, "config", "git-bug.identity", strings.ToUpper(selected))
+			case "unknown":
+				RunGit(dir, "config", "git-bug.identity", strings.Repeat("ab", 32))
+			default:
+				RunGit(dir, "config", "git-bug.identity", selected)
+				identityUsable = true
+			}
+			if !identityUsable {
+				oddIdentity++
+			}
 		case "holder":
-			if !c.Identity && !holderAlive && !staleLive {
+			if c.Identity && !identityUsable {
+				continue // whether the web UI starts with an oddly configured identity is not the subject
+			}
+			if !identityUsable && !holderAlive && !staleLive {
 				// without a user identity the web UI refuses to start: a command that fails after loading the repository
 				lockBefore, hadLock := readLock(dir)
 				res := RunCLI(dir, "webui", "--no-open", "--port", strconv.Itoa(freePort()))
@@ -365,7 +394,7 @@ func runC19(tb report.TB, rep *report.Reporter, c c19Case) {
 				if hadLock {
 					recoveries++
 				}
-				expectOK := s.Kind == "ok" && c.Identity
+				expectOK := s.Kind == "ok" && identityUsable
 				if expectOK && res.Code != 0 {
 					if fail(i, "command-fails-after-recovery/"+Normalize(lastLine(res.Out)), fmt.Sprintf("%v exited %d: %s (lock before: %q)", args, res.Code, res.Out, lockBefore)) {
 						return
@@ -442,7 +471,7 @@ func runC19(tb report.TB, rep *report.Reporter, c c19Case) {
 			_ = os.Remove(filepath.Join(dir, ".git", "git-bug", "lock"))
 		}
 	}
-	rep.Case(strings.Join(kinds, ","), refusals > 0 && recoveries > 0, []string{fmt.Sprintf("identity:%v", c.Identity), fmt.Sprintf("refusals:%d", min(refusals, 3)), fmt.Sprintf("recoveries:%d", min(recoveries, 3)), fmt.Sprintf("kills:%d", min(kills, 2)), fmt.Sprintf("holder-ended-on-its-own:%v", holderDied > 0)}, c)
+	rep.Case(strings.Join(kinds, ","), refusals > 0 && recoveries > 0, []string{fmt.Sprintf("identity:%v", c.Identity), fmt.Sprintf("refusals:%d", min(refusals, 3)), fmt.Sprintf("recoveries:%d", min(recoveries, 3)), fmt.Sprintf("kills:%d", min(kills, 2)), fmt.Sprintf("holder-ended-on-its-own:%v", holderDied > 0), fmt.Sprintf("identity-oddly-configured:%v", oddIdentity > 0)}, c)
 }
 
 func TestC19Lock(t *testing.T) {
